@@ -49,7 +49,7 @@ type progGen struct {
 
 func newProgGen(r *kernel.RNG) *progGen {
 	g := &progGen{r: r, maxD: r.Range(2, 5)}
-	g.w = make([]int, 30)
+	g.w = make([]int, 36)
 	for i := range g.w {
 		g.w[i] = r.Range(0, 4)
 	}
@@ -113,7 +113,7 @@ func (g *progGen) e(d int) string {
 	if d >= g.maxD {
 		return g.atom()
 	}
-	w := append([]int{}, g.w[:26]...)
+	w := append([]int{}, g.w[:32]...)
 	if len(g.fns) == 0 {
 		w[8], w[10], w[11], w[13] = 0, 0, 0, 0
 	}
@@ -222,6 +222,20 @@ func (g *progGen) e(d int) string {
 		return fmt.Sprintf("(aget [%s %s %s] %d)", g.e(d+1), g.e(d+1), g.e(d+1), g.r.Intn(3))
 	case 25:
 		return fmt.Sprintf("(first (list %s %s))", g.e(d+1), g.e(d+1))
+	case 26:
+		return fmt.Sprintf("(begin (assert (< %s 1000000)) %s)", g.e(d+1), g.e(d+1))
+	case 27:
+		// a syntax-quote template with an unquoted probe, evaluated
+		return fmt.Sprintf("(eval (syntaxQuote (+ (unquote %s) 1)))", g.e(d+1))
+	case 28:
+		return fmt.Sprintf("((fn [] (mdef xa xb (list %s %s)) (+ xa xb)))", g.e(d+1), g.e(d+1))
+	case 29:
+		return fmt.Sprintf("(apply + [%s %s])", g.e(d+1), g.e(d+1))
+	case 30:
+		return fmt.Sprintf("(len (append [1] %s))", g.e(d+1))
+	case 31:
+		n := g.r.Pick(localNames)
+		return fmt.Sprintf("(let [%s (hash a: 1)] (hset %s b: %s) (hget %s b:))", n, n, g.e(d+1), n)
 	}
 	return g.atom()
 }
